@@ -377,7 +377,9 @@ def step_latency(tier, seed, ctx):
     long_short = [[1000, 20]] if tier == "quick" else [[1000, 20], [2500, 10, 60], [600, 600, 5]]
     worst = 0.0
     plan = [(fen, sess) for fen in EXPLOSIVE for sess in sessions] + [(fen, sess) for fen in (EXPLOSIVE[3], EXPLOSIVE[4]) for sess in long_short]
-    for fen, sess in plan:
+    def run_session(fen, sess):
+        """one process, the budgets of `sess` one after the other; returns (violation or None, [samples], worst overshoot)"""
+        viol, samples, worst_here = None, [], 0.0
         p = subprocess.Popen([exe], stdin=subprocess.PIPE, stdout=subprocess.PIPE, stderr=subprocess.DEVNULL, text=True, bufsize=1)
         try:
             p.stdin.write("position fen %s\nisready\n" % fen)
@@ -403,15 +405,12 @@ def step_latency(tier, seed, ctx):
                         break
                 wd.cancel()
                 dt = (time.time() - t0) * 1000.0
-                res["evaluations"] += 1
-                res["spec_compared"] += 1
                 over = dt - t
-                worst = max(worst, over)
+                worst_here = max(worst_here, over)
                 if got is None or over > bound_ms:
-                    res["violations"].append({"kind": "latency", "fen": fen, "session_movetimes_ms": sess, "go_index": idx, "movetime_ms": t, "answered_after_ms": round(dt, 1), "bound_ms": t + bound_ms, "answer": got})
+                    viol = {"kind": "latency", "fen": fen, "session_movetimes_ms": sess, "go_index": idx, "movetime_ms": t, "answered_after_ms": round(dt, 1), "bound_ms": t + bound_ms, "answer": got}
                     break
-                elif len(res["samples"]) < 3:
-                    res["samples"].append({"fen": fen, "session_movetimes_ms": sess, "movetime_ms": t, "answered_after_ms": round(dt, 1), "answer": got})
+                samples.append({"fen": fen, "session_movetimes_ms": sess, "movetime_ms": t, "answered_after_ms": round(dt, 1), "answer": got})
         finally:
             try:
                 p.stdin.write("quit\n")
@@ -422,7 +421,31 @@ def step_latency(tier, seed, ctx):
                 p.wait(timeout=5)
             except Exception:
                 p.kill()
+        return viol, samples, worst_here
+
+    retried = 0
+    for fen, sess in plan:
+        # a late answer is reported only when it repeats: a loaded machine produces isolated late answers, a missing or
+        # stale deadline check produces them every time
+        attempts = []
+        for attempt in range(3):
+            viol, samples, w = run_session(fen, sess)
+            res["evaluations"] += len(sess)
+            res["spec_compared"] += len(sess)
+            attempts.append((viol, w))
+            if viol is None:
+                worst = max(worst, w)
+                for sm in samples:
+                    if len(res["samples"]) < 3:
+                        res["samples"].append(sm)
+                break
+            retried += 1
+        if all(v is not None for v, _ in attempts):
+            v = attempts[-1][0]
+            v["attempts"] = [a[0]["answered_after_ms"] for a in attempts]
+            res["violations"].append(v)
+            worst = max(worst, max(a[1] for a in attempts))
     budgets = sessions + long_short
     res["distinct_nontrivial"] = res["evaluations"]
-    res["distribution"] = {"blackbox_latency": {"max_overshoot_ms": round(worst, 1), "bound_ms": bound_ms, "positions": len(EXPLOSIVE), "budgets_ms": budgets}}
+    res["distribution"] = {"blackbox_latency": {"max_overshoot_ms": round(worst, 1), "bound_ms": bound_ms, "positions": len(EXPLOSIVE), "budgets_ms": budgets, "sessions_repeated_after_a_late_answer": retried}}
     return res
